@@ -13,7 +13,7 @@ META = dict(
                     'long SETFH: 64 channel pairs of 6- and 7-digit kHz values in one datagram through a socket stub that honours the receive size'),
     stubs=['fake socket (recvfrom honours the size argument for concrete datagrams; for symbolic ropes the length is computed from digit counts and an over-long datagram is an obligation)', 'logging', 'random.randint -> value of documented range',
            'time.sleep', 'str/int/split/join/strip on decimal ropes'],
-    outside=['arguments that are not decimal integers (C14)', 'datagrams without CMD prefix other than the probes listed', 'trxcon response parser (llsym jobs)'],
+    outside=['arguments that are not decimal integers (C14)', 'datagrams without CMD prefix other than the probes listed', 'trxcon command composition through snprintf/vsnprintf (varargs, not encoded): command texts are written by the harness from the format strings of trx_if.c'],
     assumptions=['transition table of DESIGN.md appendix A (transcribed in vf/checks/c05.py) is the oracle'],
     explanation='each command goes through the real recvfrom -> decode -> verify_req -> prepare_req -> parse_cmd -> send_response; obligations: exactly one reply to the sender, text RSP <verb> <status> <args> [results]\\\\0, status and post-state per the table for all argument values')
 
@@ -33,6 +33,10 @@ def jobs(tier, seed):
     out.append(('noprefix', 'h_noprefix', {}))
     out.append(('setfh.long.6digit', 'h_setfh_long', dict(npairs=64, lo=100000, hi=999999)))
     out.append(('setfh.long.7digit', 'h_setfh_long', dict(npairs=62, lo=1000000, hi=2000000)))
+    from . import trxc
+    for cmd in trxc.CMDS:
+        out.append(('trxcon.accepts.%s' % cmd[4:].replace(' ', '_'), 'c_ctrl_ok', dict(cmd=cmd, status=0, extra='dbm' if 'MEASURE' in cmd else '')))
+    out.append(('trxcon.rejects.POWERON.-1', 'c_ctrl_ok', dict(cmd='CMD POWERON', status=-1, extra='')))
     out.append(('setfh.long.16pairs', 'h_setfh_long', dict(npairs=16, lo=100000, hi=2000000 if False else 999999)))
     return out
 
@@ -190,3 +194,15 @@ def h_setfh_long(ctx, npairs, lo, hi):
             ctx.check('fh.ma.len', len(t.fh.ma) == npairs, got=len(t.fh.ma))
             for i, (g, w) in enumerate(zip(t.fh.ma, fr)):
                 ctx.check('fh.ma[%d]' % i, band(eq(g[0], w[0] * 1000), eq(g[1], w[1] * 1000)))
+
+
+def run_job(hid, fname, shape, timeout_ms):
+    if fname.startswith('c_'):
+        from . import trxc
+        return getattr(trxc, fname)(hid, timeout_ms=timeout_ms, **shape)
+    return core.explore(globals()[fname], hid, shape, timeout_ms=timeout_ms)
+
+
+def replay(body):
+    from . import trxc
+    return trxc.replay(body)
